@@ -18,3 +18,15 @@ TEXT_HAZARDS = [
     "x = 1 # trailing comment   \n",
     "\n\n\nx = 1\n\n\n",
 ]
+
+# Program files as raw bytes: everything `python file.py` accepts is a valid program for the CLI's file source.
+RAW_FILES = [
+    b"\xef\xbb\xbfx = 1\n",                                             # UTF-8 byte order mark
+    b"# -*- coding: latin-1 -*-\nx = '\xe9'\n",                          # PEP 263 cookie, non-UTF-8 bytes
+    b"x = 1\r\ny = 2\r\n",                                              # CRLF
+    b"#!/usr/bin/python\n# vim: set fileencoding=utf-8 :\ns = '\xc3\xa9'\n",
+    b"\xef\xbb\xbf# coding: utf-8\ndef f():\n    \"doc \xe2\x82\xac\"\n",
+    b"x = 1\ry = 2\r",                                                   # old Mac line ends
+    b"# coding: cp1252\nx = '\x80'\n",
+    b"x = 1",                                                             # no final newline
+]
